@@ -163,13 +163,17 @@ def report(ctx, d, path, verdict, what, seed):
         if v2[0] == "ok":
             raise lib.ToolError("a violation in %s did not reproduce on its own group" % path)
     prop = v2[2] if v2[0] == "invariant" else "not a behaviour of TxnAtomic"
-    summary = ("state %s, operation %s, %s run with fault at VM step %s: after event %d (%s) of the recorded execution "
+    # reader-interleaving groups: the VM step of the snapshot read at which the write operation ran
+    rb = [e for e in events[s_exec:idx] if e["a"] == "rbegin" and "at" in e]
+    reader_at = rb[-1]["at"] if rb and "@" in str(grp.get("op")) else None
+    where = ("%s run with fault at VM step %s" % (ex.get("mode"), ex.get("fault"))) if reader_at is None else \
+        ("whole operation run at VM step %s of the reader's get_wallet_summary" % reader_at)
+    summary = ("state %s, operation %s, %s: after event %d (%s) of the recorded execution "
                "the specification's %s is violated: %s" %
-               (grp.get("state"), grp.get("op"), ex.get("mode"), ex.get("fault"), idx, json.dumps(events[idx - 1])[:300],
-                prop, v2[2][:300]))
+               (grp.get("state"), grp.get("op"), where, idx, json.dumps(events[idx - 1])[:300], prop, v2[2][:300]))
     lib.violation(ctx, {"property": ctx.prop, "kind": v2[0], "invariant": prop, "state": grp.get("state"),
-                        "op": grp.get("op"), "mode": ex.get("mode"), "fault": ex.get("fault"), "seed": seed,
-                        "tier": ctx.tier, "events": sl}, summary)
+                        "op": grp.get("op"), "mode": ex.get("mode"), "fault": ex.get("fault"), "reader_at": reader_at,
+                        "seed": seed, "tier": ctx.tier, "events": sl}, summary)
 
 
 CHUNK = 20000
@@ -306,7 +310,9 @@ def replay(ctx, path):
     # (b) the same group executed again on the current tree
     if rep.get("state") and rep.get("op"):
         only = "%s/%s" % (rep["state"], rep["op"])
-        if rep.get("fault"):
+        if rep.get("reader_at"):
+            only += "/%s" % rep["reader_at"]
+        elif rep.get("fault"):
             only += "/%s" % rep["fault"]
         traces = drive(ctx, bindir, rep.get("tier", "quick"), rep.get("seed", 1), 1, only=only, tag="re")
         if validate_all(ctx, d, traces, rep.get("seed", 1), tag="re"):
